@@ -123,9 +123,21 @@ func c16Property(rt *rapid.T, ev *evid.Rec) {
 		// remove one referenced column: must be rejected
 		vi := rapid.IntRange(0, len(decls)-1).Draw(rt, "victim")
 		cp := *decls[vi]
-		kind := rapid.IntRange(0, 2).Draw(rt, "breakkind")
+		kind := rapid.IntRange(0, 3).Draw(rt, "breakkind")
 		what := ""
 		switch {
+		case kind == 3 && len(nonIdentity(cp.Block)) > 0:
+			// a block field that carries a filter but names no column at all
+			cands := nonIdentity(cp.Block)
+			victim := cands[rapid.IntRange(0, len(cands)-1).Draw(rt, "nocolfield")].Name
+			cp.Block = append([]refmodel.BlockField{}, cp.Block...)
+			for i := range cp.Block {
+				if cp.Block[i].Name == victim {
+					cp.Block[i].Column = ""
+					cp.Block[i].Filter = &refmodel.Filter{Op: "ne", Args: []string{"0x00"}}
+				}
+			}
+			what = "block field " + victim + " (filter only, no column)"
 		case kind == 0 && cp.Event != nil && len(cp.Event.Selected()) > 0:
 			col := cp.Event.Selected()[rapid.IntRange(0, len(cp.Event.Selected())-1).Draw(rt, "selcol")].Column
 			cp.Columns = dropCol(cp.Columns, col)
